@@ -385,25 +385,32 @@ structure Result where
   installed : Bool := false
   /- ghost fields (what was trusted), for the statements of the theorems -/
   issuer : Option Url := none       -- prm.AuthorizationServers[0]
+  resource : Url := .empty          -- prm.Resource (the `resource` parameter of the flow)
   asm : Option AsmDoc := none       -- the metadata in use (document or fall-back)
 deriving Repr
 
 /-- After the fetcher returned: state comparison, RFC 9207 check, exchange, installation, and the
 post-installation token read of `updateGrantedScopes`. -/
-def finish (w : World) (a : AsmDoc) (issuer : Url) (cred : Cred) (probe : Bool) (pre : List Event) : Result :=
+def finish (w : World) (a : AsmDoc) (issuer resource : Url) (cred : Cred) (probe : Bool) (pre : List Event) : Result :=
   match w.fetch a.authorizationEndpoint with
-  | .err => { log := pre, outcome := .fetch, issuer := some issuer, asm := some a }
+  | .err => { log := pre, outcome := .fetch, issuer := some issuer, resource := resource, asm := some a }
   | .result sm iss =>
-    if !sm then { log := pre, outcome := .state, issuer := some issuer, asm := some a }
+    if !sm then { log := pre, outcome := .state, issuer := some issuer, resource := resource, asm := some a }
     else match validateIssuerResponse Url.empty iss a.issuer a.issParamSupported with
       | 0 =>
         match exchange w a.tokenEndpoint cred probe with
-        | (.fail, l4) => { log := pre ++ l4, outcome := .exch, issuer := some issuer, asm := some a }
-        | (.good, l4) => { log := pre ++ l4, outcome := .ok, installed := true, issuer := some issuer, asm := some a }
-        | (.goodExpired, l4) => { log := pre ++ l4, outcome := .post, installed := true, issuer := some issuer, asm := some a }
-      | 1 => { log := pre, outcome := .issMissing, issuer := some issuer, asm := some a }
-      | 2 => { log := pre, outcome := .issMismatch, issuer := some issuer, asm := some a }
-      | _ => { log := pre, outcome := .issUnexpected, issuer := some issuer, asm := some a }
+        | (.fail, l4) => { log := pre ++ l4, outcome := .exch, issuer := some issuer, resource := resource, asm := some a }
+        | (.good, l4) => { log := pre ++ l4, outcome := .ok, installed := true, issuer := some issuer, resource := resource, asm := some a }
+        | (.goodExpired, l4) => { log := pre ++ l4, outcome := .post, installed := true, issuer := some issuer, resource := resource, asm := some a }
+      | 1 => { log := pre, outcome := .issMissing, issuer := some issuer, resource := resource, asm := some a }
+      | 2 => { log := pre, outcome := .issMismatch, issuer := some issuer, resource := resource, asm := some a }
+      | _ => { log := pre, outcome := .issUnexpected, issuer := some issuer, resource := resource, asm := some a }
+
+/-- The metadata in use after discovery: the document found, else the 2025-03-26 fall-back. -/
+def effAsm (q : AsmStep) (issuer : Url) : AsmDoc :=
+  match q with
+  | .found d => d
+  | _ => fallbackAsm issuer
 
 /-- `AuthorizationCodeHandler.Authorize`. -/
 def authorize (cfg : Config) (inp : Input) (w : World) : Result :=
@@ -418,15 +425,13 @@ def authorize (cfg : Config) (inp : Input) (w : World) : Result :=
       let resource := pr.resource cfg.serverUrl
       let q := discoverAsm w issuer 0 (asmCandidates issuer)
       match q.1 with
-      | .err o => { log := p.2 ++ q.2, outcome := o, issuer := some issuer }
+      | .err o => { log := p.2 ++ q.2, outcome := o, issuer := some issuer, resource := resource }
       | qr =>
-        let a := match qr with
-          | .found d => d
-          | _ => fallbackAsm issuer
+        let a := effAsm qr issuer
         let r := register cfg w a
         match r.1 with
-        | .err o => { log := p.2 ++ q.2 ++ r.2, outcome := o, issuer := some issuer, asm := some a }
+        | .err o => { log := p.2 ++ q.2 ++ r.2, outcome := o, issuer := some issuer, resource := resource, asm := some a }
         | .ok cred probe =>
-          finish w a issuer cred probe (p.2 ++ q.2 ++ r.2 ++ [.fetch a.authorizationEndpoint cred resource])
+          finish w a issuer resource cred probe (p.2 ++ q.2 ++ r.2 ++ [.fetch a.authorizationEndpoint cred resource])
 
 end OAuth
